@@ -96,8 +96,11 @@ pub mod visitor {
         fn visit_transaction(&mut self, tx: &crate::bsl::Transaction) -> ControlFlow<()> {
             let current = bitcoin::Txid::from_slice(tx.txid_sha2().as_slice()).expect("32");
             if self.to_find == current {
-                let tx_found = bitcoin::Transaction::consensus_decode(&mut tx.as_ref())
-                    .expect("slice validated");
+                // the slice is already in memory and validated: decode it as a finite reader,
+                // `consensus_decode` would cap the reader at rust-bitcoin's 4MB network limit
+                let tx_found =
+                    bitcoin::Transaction::consensus_decode_from_finite_reader(&mut tx.as_ref())
+                        .expect("slice validated");
                 self.tx_found = Some(tx_found);
                 ControlFlow::Break(())
             } else {
